@@ -136,6 +136,24 @@ impl<'tcx> Cx<'tcx> {
                 f.push(("p", jstr(&self.path(def.did()))));
                 let a = self.targs(args);
                 f.push(("a", a));
+                if def.is_enum() && def.variants().iter().all(|v| v.fields.is_empty()) && def.variants().len() <= 64 {
+                    // field-less enum: names and discriminant values of the variants
+                    let mut vs = Vec::new();
+                    for (vi, d) in def.discriminants(self.tcx) {
+                        let sz = d.ty.primitive_size(self.tcx).bits() as u32;
+                        let sv: i128 = if d.ty.is_signed() && sz < 128 {
+                            let sh = 128 - sz;
+                            ((d.val << sh) as i128) >> sh
+                        } else {
+                            d.val as i128
+                        };
+                        vs.push(jobj(&[
+                            ("n", jstr(def.variant(vi).name.as_str())),
+                            ("d", sv.to_string()),
+                        ]));
+                    }
+                    f.push(("enum", jlist(&vs)));
+                }
             }
             TyKind::Ref(_, inner, m) => {
                 f.push(("k", jstr("ref")));
@@ -255,6 +273,25 @@ impl<'tcx> Cx<'tcx> {
             }
         }
         f.push(("s", jstr(&s)));
+        {
+            // layout of closed, sized types (size_of::<T>() inside generic code is resolved
+            // by the analysis through the call's generic arguments)
+            use rustc_middle::ty::TypeVisitableExt;
+            let closed = !t.has_param() && !t.has_aliases() && !t.has_infer() && !t.has_placeholders()
+                && !t.has_escaping_bound_vars() && !t.has_free_regions();
+            let simple = matches!(t.kind(), TyKind::Bool | TyKind::Char | TyKind::Int(_) | TyKind::Uint(_) | TyKind::Float(_)
+                | TyKind::Adt(..) | TyKind::Tuple(..) | TyKind::Array(..) | TyKind::RawPtr(..));
+            if closed && simple {
+                let env = ty::TypingEnv::fully_monomorphized();
+                let r = std::panic::catch_unwind(std::panic::AssertUnwindSafe(|| {
+                    self.tcx.layout_of(env.as_query_input(t)).ok().map(|l| (l.size.bytes(), l.align.abi.bytes()))
+                }));
+                if let Ok(Some((sz, al))) = r {
+                    f.push(("size", sz.to_string()));
+                    f.push(("align", al.to_string()));
+                }
+            }
+        }
         self.types[id] = jobj(&f);
         id
     }
@@ -460,6 +497,25 @@ impl<'tcx> Cx<'tcx> {
                         let adt = self.tcx.adt_def(*d);
                         if vi.as_usize() < adt.variants().len() {
                             f.push(("vn", jstr(adt.variant(*vi).name.as_str())));
+                        }
+                        if adt.is_enum() {
+                            // discriminant value of the variant and of all variants (SwitchInt compares these)
+                            let dv = adt.discriminant_for_variant(self.tcx, *vi);
+                            let sz = dv.ty.primitive_size(self.tcx).bits() as u32;
+                            let sx = |v: u128| -> i128 {
+                                if dv.ty.is_signed() && sz < 128 {
+                                    let sh = 128 - sz;
+                                    ((v << sh) as i128) >> sh
+                                } else {
+                                    v as i128
+                                }
+                            };
+                            f.push(("dv", sx(dv.val).to_string()));
+                            let all: Vec<String> = adt
+                                .discriminants(self.tcx)
+                                .map(|(_i, d)| sx(d.val).to_string())
+                                .collect();
+                            f.push(("dvs", jlist(&all)));
                         }
                         let a = self.targs(args);
                         f.push(("a", a));
@@ -688,6 +744,20 @@ impl<'tcx> Cx<'tcx> {
                         let a = self.targs(ga);
                         cf.push(("a", a));
                         cf.push(("local", jbool(d.is_local())));
+                        // size_of::<T>() / align_of::<T>() of a concrete type: the layout's answer
+                        let pth = self.path(d);
+                        if pth.ends_with("mem::size_of") || pth.ends_with("mem::align_of") {
+                            if let Some(t0) = ga.types().next() {
+                                use rustc_middle::ty::TypeVisitableExt;
+                                if !t0.has_param() && !t0.has_aliases() {
+                                    let env = ty::TypingEnv::fully_monomorphized();
+                                    if let Ok(l) = self.tcx.layout_of(env.as_query_input(t0)) {
+                                        let v = if pth.ends_with("size_of") { l.size.bytes() } else { l.align.abi.bytes() };
+                                        cf.push(("layout", v.to_string()));
+                                    }
+                                }
+                            }
+                        }
                         if let Some(tr) = self.tcx.trait_of_assoc(d) {
                             cf.push(("trait", jstr(&self.path(tr))));
                             cf.push(("name", jstr(self.tcx.item_name(d).as_str())));
@@ -802,6 +872,20 @@ impl<'tcx> Cx<'tcx> {
                         }
                     }
                     f.push(("methods", jlist(&ms)));
+                    // associated types of the impl (Self::Entry = ...)
+                    let mut ats = Vec::new();
+                    let items: Vec<(String, DefId)> = tcx
+                        .associated_items(d)
+                        .in_definition_order()
+                        .filter(|it| it.is_type() && it.opt_name().is_some())
+                        .map(|it| (it.opt_name().unwrap().as_str().to_string(), it.def_id))
+                        .collect();
+                    for (n, did) in items {
+                        let t = tcx.type_of(did).instantiate_identity().skip_normalization();
+                        let tid = self.ty(t);
+                        ats.push(jobj(&[("n", jstr(&n)), ("t", tid.to_string())]));
+                    }
+                    f.push(("assoc_types", jlist(&ats)));
                     impls.push(jobj(&f));
                 }
                 DefKind::Trait => {
